@@ -83,8 +83,9 @@ def build_gfa(nodes, links):
             import gzip
 
             path = os.path.join(VIA_FILE["dir"], "viafile.gfa.gz")
-            with gzip.open(path, "wt") as f:
-                f.write((stext + text)[:-1])
+            data = (stext + text)[:-1].encode()
+            with open(path, "wb") as f:  # two gzip members (segments in the first, links in the second)
+                f.write(gzip.compress(data[: len(stext)]) + gzip.compress(data[len(stext):]))
             return GFA(path)
         path = os.path.join(VIA_FILE["dir"], "viafile.gfa")
         with open(path, "w") as f:
@@ -218,6 +219,11 @@ def graphs_part(res, spec, tier):
             for scheme in (0, 1, 2):
                 links = labelled(edges, scheme)
                 check_decomposition(res, names, links, f"graph {n} nodes scheme {scheme}", cache)
+                if gi % 3 == 0:
+                    # the same graph under vg-style numeric names whose concatenations collide ("1"+"12" = "11"+"2")
+                    ren = dict(zip(names, NUMERIC_NAMES))
+                    check_decomposition(res, [ren[x] for x in names], [(ren[a], ao, ren[b2], bo) for a, ao, b2, bo in links], f"graph {n} nodes scheme {scheme}, numeric names", None)
+                    res.count("graphs_with_prefix_colliding_names")
             if edges:
                 base = labelled(edges, 1)
                 a, ao, b2, bo = base[0]
@@ -247,6 +253,7 @@ def graphs_part(res, spec, tier):
 # ----------------------------------------------------------------------------------------------
 # (b) explicit-state search over edit histories
 
+NUMERIC_NAMES = ["1", "11", "12", "2", "112", "21"]
 NAMES = ["a", "b", "2"]  # one numeric name: the library accepts non-string ids and converts them
 
 
